@@ -15,9 +15,10 @@ CcOf(n) == CASE P.proto = "T4" -> (IF n % 4 = 1 THEN "I" ELSE IF n % 4 = 2 THEN 
 Docs == {{}, {"None"}, {"False"}, {"any"}}
 
 Init ==
-    /\ \E n \in 1..MaxN, proto \in Protos, nr \in NRetries, d \in Docs :
+    /\ \E n \in 1..MaxN, proto \in Protos, nr \in NRetries, d \in Docs, nx \in BOOLEAN :
+          (nx => d # {}) /\
           P = [proto |-> proto, nRetry |-> nr, clean |-> [i \in 1..n |-> i],
-               cleanRet |-> [kind |-> "ok", errno |-> 0, val |-> "v"], doc |-> d, gone |-> FALSE]
+               cleanRet |-> [kind |-> "ok", errno |-> 0, val |-> "v"], doc |-> d, gone |-> FALSE, noraise |-> nx]
     /\ sc \in Scripts(MaxN, Bursts)
     /\ sc.p <= Len(P.clean)
     /\ left = sc.b
@@ -64,7 +65,8 @@ EnvBadMac == /\ st.ph = "sent" /\ ~FaultDue /\ P.proto = "T3" /\ st.gave = 0 /\ 
              /\ st' = DoAnswer(st, P, "badmac", TRUE)
              /\ extra' = 4 /\ UNCHANGED left /\ Keep
 Rets == IF st.gave = 0 THEN {P.cleanRet}
-        ELSE {[kind |-> "tagerr", errno |-> IF st.lastGive \in {"gone", "mac"} THEN 0 ELSE ErrnoOf(st.lastGive), val |-> "-"]}
+        ELSE (IF P.noraise THEN {} ELSE
+              {[kind |-> "tagerr", errno |-> IF st.lastGive \in {"gone", "mac"} THEN 0 ELSE ErrnoOf(st.lastGive), val |-> "-"]})
              \cup {[kind |-> "ok", errno |-> 0, val |-> v] : v \in P.doc \ {"any"}}
              \cup (IF "any" \in P.doc THEN {[kind |-> "ok", errno |-> 0, val |-> "partial"]} ELSE {})
 CRet == /\ st.ph = "idle" /\ (st.gave > 0 \/ st.pos = N)
@@ -78,10 +80,12 @@ BOver == st.ph = "faulted" /\ st' = [DoSend(st, P, st.cur, st.cc, st.tgt) EXCEPT
 BNoRetry == st.ph = "faulted" /\ st' = DoRet([st EXCEPT !.gave = 1, !.lastGive = sc.k], P, [kind |-> "tagerr", errno |-> ErrnoOf(sc.k), val |-> "-"], st.tgt)
 BRaw == st.ph = "idle" /\ st.gave > 0 /\ st' = DoRet(st, P, [kind |-> "raw", errno |-> 0, val |-> "TimeoutError"], st.tgt)
 BWrongErrno == st.ph = "idle" /\ st.gave > 0 /\ st.lastGive \notin {"gone", "mac"} /\ st' = DoRet(st, P, [kind |-> "tagerr", errno |-> ErrnoOf(st.lastGive) - 1, val |-> "-"], st.tgt)
+BRaise == st.ph = "idle" /\ st.gave > 0 /\ P.noraise /\ st.lastGive \in Kinds
+          /\ st' = DoRet(st, P, [kind |-> "tagerr", errno |-> ErrnoOf(st.lastGive), val |-> "-"], st.tgt)
 BSwallow == st.ph = "idle" /\ st.gave > 0 /\ P.doc = {} /\ st' = DoRet(st, P, P.cleanRet, st.tgt)
 BStale == st.ph = "idle" /\ ~st.tgt /\ st' = DoRet(st, P, [kind |-> "ok", errno |-> 0, val |-> "False"], TRUE)
 BTwice == st.ph = "idle" /\ st.pos >= 1 /\ st.ex = 1 /\ st' = VIf([st EXCEPT !.ex = 2], 2 > 1 + st.fAfter, "executed-twice")
-Bug == Buggy /\ (BResend \/ BOver \/ BNoRetry \/ BRaw \/ BWrongErrno \/ BSwallow \/ BTwice \/ BStale) /\ UNCHANGED <<left, extra>> /\ Keep
+Bug == Buggy /\ (BResend \/ BOver \/ BNoRetry \/ BRaw \/ BWrongErrno \/ BSwallow \/ BTwice \/ BStale \/ BRaise) /\ UNCHANGED <<left, extra>> /\ Keep
 
 Next == CSend \/ CRetry \/ CReack \/ CDirty \/ EnvAnswer \/ EnvFault \/ EnvWtx \/ CWtx \/ CSense \/ EnvBadMac \/ CRet \/ Done \/ Bug
 Spec == Init /\ [][Next]_vars /\ WF_vars(Next)
@@ -98,7 +102,7 @@ Terminates == <>(st.ph = "done")
 Absorbed == (st.ph = "done" /\ st.tgt /\ st.lastGive # "mac" /\ sc.b < Budget(P.proto, CcOf(sc.p), P.nRetry) /\ ~(P.proto = "T4")) => st.ret = P.cleanRet
 \* a burst that exhausts the budget ends with the matching TagCommandError or the documented value
 GaveUpOutcome == (st.ph = "done" /\ st.gave > 0) =>
-                    \/ st.ret.kind = "tagerr" /\ (IF st.lastGive \in {"gone", "mac"} THEN st.ret.errno = 0 ELSE st.ret.errno = ErrnoOf(sc.k))
+                    \/ ~P.noraise /\ st.ret.kind = "tagerr" /\ (IF st.lastGive \in {"gone", "mac"} THEN st.ret.errno = 0 ELSE st.ret.errno = ErrnoOf(sc.k))
                     \/ st.ret.kind = "ok" /\ (st.ret.val \in P.doc \/ "any" \in P.doc)
 
 \* witnesses (must be violated)
